@@ -144,7 +144,7 @@ async def scenario(env: Any, case: Dict[str, Any]) -> Dict[str, Any]:
     t_ready = case["startup_delay"]
     if case["early_attempt_at"] is not None and case["early_attempt_at"] < t_ready:
         await env.sleep(case["early_attempt_at"])
-        out["early"] = await env.connect()
+        out["early"] = await env.connect(which=case.get("sched", 0) % 2)
     if case["startup"] == "hang":
         await env.sleep(case["startup_timeout"] + 1.0)
         out["late"] = await env.connect()
@@ -161,7 +161,7 @@ async def scenario(env: Any, case: Dict[str, Any]) -> Dict[str, Any]:
     for idx, r in sorted(enumerate(case["requests"]), key=lambda p: (p[1]["at"], p[0])):
         await env.sleep(max(0.0, t0 + r["at"] - env.now()))
         if conn is None or r["new_conn"] or conn.server_gone:
-            conn = await env.connect()
+            conn = await env.connect(which=len(out["clients"]) % 2)  # both listening sockets
             out["clients"].append(conn)
         if conn.refused:
             continue
